@@ -105,6 +105,20 @@ func (k *imgChecker) checkBlock(b *chaingen.Block, wantSDL bool) {
 				class, kind := "block_lost", "block_with_transactions"
 				if len(b.B.Transactions) == 0 {
 					class, kind = "block_unreadable", "empty_block"
+					// The recorded finding explains only empty blocks BELOW the first block that still has
+					// old-layout entries when a start begins. In the uninterrupted upgrade of a database
+					// that is entirely in the old layout that is the chain's first block with transactions:
+					// an empty block above it lies inside the range that very start converts.
+					if k.w.judgingUninterrupted && k.w.lay == layoutOldTx {
+						for _, x := range k.w.chain {
+							if len(x.B.Transactions) > 0 {
+								if x.B.Number < num {
+									class, kind = "block_lost", "empty_block_inside_the_converted_range_of_an_uninterrupted_upgrade"
+								}
+								break
+							}
+						}
+					}
 				}
 				k.fail(class, "no_combined_entry_"+kind, "BlockByNumber(%d) fails with %v: the block (%d transactions) has a header but no entry in the combined transactions bucket", num, err, len(b.B.Transactions))
 			}
